@@ -108,3 +108,208 @@ def compositions(n, cuts):
     """cuts: sorted list of cut points in [0, n] (duplicates give empty chunks)."""
     pts = [0] + sorted(min(max(c, 0), n) for c in cuts) + [n]
     return [pts[i + 1] - pts[i] for i in range(len(pts) - 1)]
+
+
+# --------------------------------------------------------------------------- banks
+
+BANK_KINDS = ["tri", "fbank", "gabor", "gammatone"]
+RATES = [1000, 2000, 8000, 11025, 16000, 22050, 44100]
+
+
+@st.composite
+def bank_specs(draw, kinds=BANK_KINDS, rates=RATES, max_filts=12, min_filts=1, allow_l2=True,
+               orders=(1, 2, 3, 4, 5, 6), min_width_frac=0.0):
+    """A *valid* bank configuration, constructed (never filtered):
+    0 <= low < high <= floor(rate/2) or high=None; octave scales start at or below low_hz > 0."""
+    kind = draw(st.sampled_from(kinds))
+    rate = draw(st.sampled_from(rates))
+    nyq = rate // 2  # three of the four classes validate against rate // 2
+    num_filts = draw(st.integers(min_filts, max_filts))
+    # range: fraction of nyquist, integer or non-integer edges
+    lo_frac = draw(st.one_of(st.just(0.0), floats(0.0, 0.6), st.just(20.0 / nyq)))
+    width_frac = draw(st.one_of(floats(max(0.05, min_width_frac), 1.0), st.just(1.0)))
+    low = lo_frac * nyq
+    high = min(nyq, low + max(width_frac * (nyq - low), 2.0 * (num_filts + 1) * rate * 4e-4 + 1.0))
+    if draw(st.booleans()):
+        low = float(math.floor(low))
+        high = float(max(math.floor(high), low + 1))
+    high = min(float(high), float(nyq))
+    if high <= low:
+        low = max(0.0, high - 1.0)
+    high_none = draw(st.sampled_from([False, False, True]))
+    spec = {"alias": kind, "num_filts": num_filts, "low_hz": float(low),
+            "high_hz": None if high_none else float(high), "sampling_rate": rate}
+    if kind != "fbank":
+        sc = draw(scale_specs())
+        if sc["alias"] == "octave":
+            # octave scale: low_hz must be positive and not below the scale's own origin
+            if spec["low_hz"] < 1.0:
+                spec["low_hz"] = float(draw(st.sampled_from([1.0, 10.0, 20.0, 50.0])))
+                if spec["high_hz"] is not None and spec["high_hz"] <= spec["low_hz"]:
+                    spec["high_hz"] = float(nyq)
+            sc = {"alias": "octave", "low_hz": min(sc["low_hz"], spec["low_hz"])}
+        spec["scale"] = sc
+    if kind in ("tri", "fbank"):
+        spec["analytic"] = draw(st.booleans())
+    if kind in ("gabor", "gammatone"):
+        spec["erb"] = draw(st.booleans())
+        l2_ok = allow_l2 is True or (allow_l2 == "gabor" and kind == "gabor")
+        spec["scale_l2_norm"] = draw(st.booleans()) if l2_ok else False
+    if kind == "gammatone":
+        spec["order"] = draw(st.sampled_from(list(orders)))
+        spec["max_centered"] = draw(st.booleans())
+    return spec
+
+
+def build_bank(spec):
+    from pydrobert.speech import filters
+
+    kind = spec["alias"]
+    kw = dict(num_filts=spec["num_filts"], high_hz=spec["high_hz"], low_hz=spec["low_hz"],
+              sampling_rate=spec["sampling_rate"])
+    if kind == "tri":
+        return filters.TriangularOverlappingFilterBank(build_scale(spec["scale"]), analytic=spec.get("analytic", False), **kw)
+    if kind == "fbank":
+        return filters.Fbank(analytic=spec.get("analytic", False), **kw)
+    if kind == "gabor":
+        return filters.GaborFilterBank(build_scale(spec["scale"]), scale_l2_norm=spec.get("scale_l2_norm", False),
+                                       erb=spec.get("erb", False), **kw)
+    if kind == "gammatone":
+        return filters.ComplexGammatoneFilterBank(
+            build_scale(spec["scale"]), order=spec.get("order", 4), max_centered=spec.get("max_centered", False),
+            scale_l2_norm=spec.get("scale_l2_norm", False), erb=spec.get("erb", False), **kw)
+    raise core.HarnessError("unknown bank kind %r" % kind)
+
+
+def ref_scale_fwd(spec, f):
+    """Own forward scale formulas (from the cited papers), independent of scales.py."""
+    a = spec["alias"]
+    if a == "mel":
+        return 1127.0 * math.log1p(f / 700.0)
+    if a == "bark":
+        z = 26.81 * f / (1960.0 + f) - 0.53
+        if z < 2:
+            return z + 0.15 * (2 - z)
+        if z > 20.1:
+            return z + 0.22 * (z - 20.1)
+        return z
+    if a == "linear":
+        return (f - spec["low_hz"]) * spec.get("slope_hz", 1.0)
+    if a == "octave":
+        return math.log2(f / spec["low_hz"])
+    raise core.HarnessError(a)
+
+
+def ref_scale_inv(spec, s):
+    a = spec["alias"]
+    if a == "mel":
+        return 700.0 * math.expm1(s / 1127.0)
+    if a == "bark":
+        if s < 2:
+            z = (s - 0.3) / 0.85
+        elif s > 20.1:
+            z = (s + 4.422) / 1.22
+        else:
+            z = s
+        return 1960.0 * (z + 0.53) / (26.28 - z)
+    if a == "linear":
+        return s / spec.get("slope_hz", 1.0) + spec["low_hz"]
+    if a == "octave":
+        return spec["low_hz"] * 2.0 ** s
+    raise core.HarnessError(a)
+
+
+def bank_scale_spec(spec):
+    return {"alias": "mel"} if spec["alias"] == "fbank" else spec["scale"]
+
+
+def ref_edges(spec, half_offset):
+    """Points scale^-1(s_lo + (j + half_offset) * delta): half_offset 0 -> tri/fbank vertices
+    (j = 0..n+1), 0.5 -> Gabor/gammatone filter edges (j = 0..n)."""
+    sc = bank_scale_spec(spec)
+    rate = spec["sampling_rate"]
+    if spec["alias"] == "tri":
+        high = spec["high_hz"] if spec["high_hz"] is not None else rate / 2
+        high = min(high, rate / 2)
+    else:
+        high = spec["high_hz"] if spec["high_hz"] is not None else rate // 2
+    n = spec["num_filts"]
+    s_lo, s_hi = ref_scale_fwd(sc, spec["low_hz"]), ref_scale_fwd(sc, high)
+    d = (s_hi - s_lo) / (n + 1)
+    count = n + 2 if half_offset == 0 else n + 1
+    return [ref_scale_inv(sc, s_lo + (j + half_offset) * d) for j in range(count)]
+
+
+def gammatone_alpha(spec, left, right):
+    """Own derivation of the gammatone bandwidth parameter (radians/sample) for a filter between
+    two edges (Hz): 3 dB points at the edges (erb=False) or ERB equal to the edge spacing."""
+    n = spec.get("order", 4)
+    B = (right - left) * 2 * math.pi / spec["sampling_rate"]
+    if spec.get("erb"):
+        return B * 2.0 ** (2 * n - 2) * math.factorial(n - 1) ** 2 / (math.pi * math.factorial(2 * n - 2))
+    return (B / 2) / math.sqrt(2.0 ** (1.0 / n) - 1)
+
+
+def gammatone_degenerate(spec, thr):
+    """L2-normalised gammatone whose peak gain is below the threshold (empty effective support)."""
+    if spec["alias"] != "gammatone" or not spec.get("scale_l2_norm"):
+        return False
+    n = spec.get("order", 4)
+    edges = ref_edges(spec, 0.5)
+    for l, r in zip(edges[:-1], edges[1:]):
+        a = gammatone_alpha(spec, l, r)
+        if a <= 0:
+            return True
+        c = math.sqrt((2 * a) ** (2 * n - 1) / math.factorial(2 * n - 2))
+        if c * math.factorial(n - 1) / a ** n <= thr * 1.0000001:
+            return True
+    return False
+
+
+def gabor_degenerate(spec, thr):
+    """True when some Gabor filter's whole impulse response lies below the effective-support
+    threshold (peak 1/(std*sqrt(2*pi)) < thr, or the L2 analogue): the bank has a filter with
+    an empty effective support, outside the statements' 'valid/constructible' banks."""
+    if spec["alias"] != "gabor":
+        return False
+    edges = ref_edges(spec, 0.5)
+    rate = spec["sampling_rate"]
+    bw_const = math.sqrt(math.pi) / 2 if spec.get("erb") else math.sqrt(0.3 * math.log(10))
+    for l, r in zip(edges[:-1], edges[1:]):
+        half_ang = (r - l) / 2 * 2 * math.pi / rate
+        if half_ang <= 0:
+            return True
+        std = bw_const / half_ang
+        if spec.get("scale_l2_norm"):
+            peak = std ** -0.5 * math.pi ** -0.25
+        else:
+            peak = 1.0 / (std * math.sqrt(2 * math.pi))
+        if peak <= thr * 1.0000001:
+            return True
+    return False
+
+
+# --------------------------------------------------------------------------- windows
+
+def window_specs():
+    return st.one_of(
+        st.sampled_from([{"alias": "hann"}, {"alias": "hamming"}, {"alias": "blackman"}, {"alias": "bartlett"}]),
+        st.builds(lambda o, p: {"alias": "gamma", "order": o, "peak": p}, st.integers(1, 6), floats(0.5, 0.95)),
+    )
+
+
+def build_window(spec):
+    from pydrobert.speech import filters
+
+    a = spec["alias"]
+    if a == "hann":
+        return filters.HannWindow()
+    if a == "hamming":
+        return filters.HammingWindow()
+    if a == "blackman":
+        return filters.BlackmanWindow()
+    if a == "bartlett":
+        return filters.BartlettWindow()
+    if a == "gamma":
+        return filters.GammaWindow(order=spec["order"], peak=spec["peak"])
+    raise core.HarnessError("unknown window %r" % a)
